@@ -50,7 +50,24 @@ let sem_tptp (e : Sexp.t) : Sexp.t =
   | L [ _; L [ A "panic" ] ] -> L [ A "ok"; A "0" ]
   | _ -> bad "sem_tptp: %s" (to_string e)
 
+let problem_pipeline (e : Sexp.t) : Sexp.t =
+  match e with
+  | L [ p; d ] ->
+    let raw = problem p in
+    let open M.Problem in
+    let p = create_unique_formula_names (rename_conflicting_symbols (add_annotated_formulas (with_name raw.pb_name) raw.pb_formulas)) in
+    L (List.map of_problem (decompose p (decomposition d)))
+  | _ -> bad "problem_pipeline: %s" (to_string e)
+
+let strong_transition (e : Sexp.t) : Sexp.t =
+  match e with
+  | L [ l; r ] -> of_theory (M.Transition.transition_axioms (program l) (program r))
+  | _ -> bad "strong_transition: %s" (to_string e)
+
 let () =
+  Ops.register "problem_display" (fun e -> of_string_result (M.ProblemPrint.problem_display (problem e)));
+  Ops.register "problem_pipeline" problem_pipeline;
+  Ops.register "strong_transition" strong_transition;
   Ops.register "tptp_format" (fun e -> of_string_result (M.TptpPrint.tptp_format (formula e)));
   Ops.register "sem_tptp" sem_tptp
 let init () = ()
